@@ -34,7 +34,8 @@ def _structures():
     out = [(v, m) for (v, m) in PANEL if m in T.LIBS[v].MESSAGES]
     rnd = random.Random(1000 + SEED)
     # structures that mention the pseudo-segments ANY / ANYHL7SEGMENT / ANYZSEGMENT have no fixed shape
-    allm = [(v, m) for v in T.VERSIONS for m in T.MSGS[v] if (v, m) not in out and
+    # (names such as QBP_Qnn / MFN_Znn are templates of the standard, 'nn' standing for digits: no message carries them)
+    allm = [(v, m) for v in T.VERSIONS for m in T.MSGS[v] if (v, m) not in out and m == m.upper() and
             all(n in T.SEGS[v] and T.seg_children(v, n) is not None for n in seg_names(T.LIBS[v].MESSAGES[m]))]
     out += rnd.sample(allm, 376 if THOROUGH else 20)
     return out
